@@ -2,7 +2,8 @@
    analysis and is NOT a theorem here.  Proved: the discrete identities the order rests on.
    (* FULL: ||u_h - u|| = O(h^2), and O(h^p), p > 3, with implicit extrapolation *) *)
 From Coq Require Import List ZArith Bool Reals.
-From GMGP Require Import Scalar ScalarR InterpDefs StencilDefs StencilProofs StencilProofs2.
+From GMGP Require Import Scalar ScalarR InterpDefs StencilDefs StencilProofs StencilProofs2 StencilTie.
+From GMGPGen Require Import StencilGen.
 Import ListNotations.
 Local Open Scope R_scope.
 
@@ -35,5 +36,38 @@ Theorem C02_richardson_algebra : forall u c uh u2h dh d2h hh : R,
   uh = u + c * hh ^ 2 + dh -> u2h = u + 4 * c * hh ^ 2 + d2h -> (4 * uh - u2h) / 3 - u = (4 * dh - d2h) / 3.
 Proof. exact richardson_algebra. Qed.
 
+(* ---- the tie to the source: the four loop nests of GMGPolar::discretize_rhs_f as translator T3 regenerates them ---- *)
+
+(* cached geometry: every loop body multiplies rhs_f at its own node by the model's rhs_weight (1 on Dirichlet rows) *)
+Theorem C02_generated_rhs_scaling_cached :
+  forall (nr nth : Z) (h k rad thetaf : Z -> R) (det : Z -> Z -> R) (dirbc : bool),
+  (4 <= nr)%Z -> (2 <= nth)%Z ->
+  forall gen : (Z -> Z -> R) -> Z -> Z -> list (@gwrite Rsc),
+  gen = @gen_rhs_cached_circle Rsc nr nth h k rad thetaf det dirbc \/
+  gen = @gen_rhs_cached_radial Rsc nr nth h k rad thetaf det dirbc ->
+  forall (rhs_f : Z -> Z -> R) (i j : Z), (0 <= i < nr)%Z -> (0 <= j < nth)%Z ->
+  gen rhs_f i j = [ (((i, j), W_rhs_f_WMul), @rhs_weight Rsc nr nth h k (rad 0%Z) det dirbc i j) ].
+Proof. exact gen_rhs_body_cached. Qed.
+
+(* uncached geometry: the same with det DF = Jrr Jtt - Jrt Jtr evaluated at the node itself *)
+Theorem C02_generated_rhs_scaling_uncached :
+  forall (nr nth : Z) (h k rad thetaf sin_cache cos_cache : Z -> R) (dFx_dr dFy_dr dFx_dt dFy_dt : Z -> Z -> R) (dirbc : bool),
+  (4 <= nr)%Z -> (2 <= nth)%Z ->
+  forall gen : (Z -> Z -> R) -> Z -> Z -> list (@gwrite Rsc),
+  gen = @gen_rhs_uncached_circle Rsc nr nth h k rad thetaf sin_cache cos_cache dFx_dr dFy_dr dFx_dt dFy_dt dirbc \/
+  gen = @gen_rhs_uncached_radial Rsc nr nth h k rad thetaf sin_cache cos_cache dFx_dr dFy_dr dFx_dt dFy_dt dirbc ->
+  forall (rhs_f : Z -> Z -> R) (i j : Z), (0 <= i < nr)%Z -> (0 <= j < nth)%Z ->
+  gen rhs_f i j = [ (((i, j), W_rhs_f_WMul),
+                     @rhs_weight Rsc nr nth h k (rad 0%Z) (fun i j => dFx_dr i j * dFy_dt i j - dFx_dt i j * dFy_dr i j) dirbc i j) ].
+Proof. exact gen_rhs_body_uncached. Qed.
+
+(* the circle loop nest and the radial loop nest of either variant together visit every node exactly once *)
+Theorem C02_generated_rhs_loops_partition :
+  forall nr nth nsc i j : Z, (0 <= i < nr)%Z -> (0 <= j < nth)%Z ->
+  xorb (gen_rhs_cached_circle_visits nth nsc i j) (gen_rhs_cached_radial_visits nr nth nsc i j) = true /\
+  xorb (gen_rhs_uncached_circle_visits nth nsc i j) (gen_rhs_uncached_radial_visits nr nth nsc i j) = true.
+Proof. exact gen_rhs_loops_partition. Qed.
+
 Print Assumptions C02_interior_row_sum.
+Print Assumptions C02_generated_rhs_scaling_cached.
 Print Assumptions C02_richardson_algebra.
